@@ -300,7 +300,7 @@ class ConvSim(WorldBase):
                 continue
             if level == len(shape) - 1:
                 self.uniq += 1
-                out.append([c, 0 if g.random() < self.cfg["explicit"] else g.choice([self.uniq, self.uniq + 0.5])])
+                out.append([c, 0 if g.random() < self.cfg["explicit"] else g.choice([self.uniq, self.uniq + 0.5, self.uniq, self.uniq * 1e-07, self.uniq * 1e+16])])
             else:
                 out.append([c, [] if g.random() < self.cfg["explicit"] * 0.5 else self._spec(g, shape, level + 1, dens)])
         return out
